@@ -10,9 +10,9 @@ use redis_sim::redis::{Command, CommandExecutor, RespValue, SDS};
 use redis_sim::simulator::VirtualTime;
 use std::panic::{catch_unwind, AssertUnwindSafe};
 
-fn sds(s: &str) -> SDS { SDS::new(s.as_bytes().to_vec()) }
+pub(crate) fn sds(s: &str) -> SDS { SDS::new(s.as_bytes().to_vec()) }
 
-fn show(r: &RespValue) -> String {
+pub(crate) fn show(r: &RespValue) -> String {
     match r {
         RespValue::SimpleString(s) => format!("+{}", s),
         RespValue::Error(s) => format!("-{}", s),
@@ -24,14 +24,14 @@ fn show(r: &RespValue) -> String {
     }
 }
 
-fn exec(ex: &mut CommandExecutor, c: &Command) -> Result<RespValue, String> {
+pub(crate) fn exec(ex: &mut CommandExecutor, c: &Command) -> Result<RespValue, String> {
     catch_unwind(AssertUnwindSafe(|| ex.execute(c))).map_err(|e| e.downcast_ref::<String>().cloned().or_else(|| e.downcast_ref::<&str>().map(|s| s.to_string())).unwrap_or_default())
 }
-fn run(ex: &mut CommandExecutor, c: &Command) -> String { match exec(ex, c) { Ok(r) => show(&r), Err(m) => format!("PANIC({})", m) } }
+pub(crate) fn run(ex: &mut CommandExecutor, c: &Command) -> String { match exec(ex, c) { Ok(r) => show(&r), Err(m) => format!("PANIC({})", m) } }
 
 
 /// readable form of the commands the batteries use (Debug of SDS is noisy)
-fn cmd_text(c: &Command) -> String {
+pub(crate) fn cmd_text(c: &Command) -> String {
     let t = |s: &SDS| String::from_utf8_lossy(s.as_bytes()).to_string();
     match c {
         Command::Incr(k) => format!("INCR {}", k),
@@ -52,24 +52,46 @@ fn cmd_text(c: &Command) -> String {
         Command::Keys(p) => format!("KEYS {}", p),
         Command::DbSize => "DBSIZE".to_string(),
         Command::PExpireTime(k) => format!("PEXPIRETIME {}", k),
-        Command::PExpire { key, milliseconds, .. } => format!("PEXPIRE {} {}", key, milliseconds),
+        Command::PExpire { key, milliseconds, nx, xx, gt, lt } => format!("PEXPIRE {} {}{}", key, milliseconds, flags(*nx, *xx, *gt, *lt)),
+        Command::Expire { key, seconds, nx, xx, gt, lt } => format!("EXPIRE {} {}{}", key, seconds, flags(*nx, *xx, *gt, *lt)),
+        Command::ExpireAt(k, ts) => format!("EXPIREAT {} {}", k, ts),
+        Command::PExpireAt(k, ts) => format!("PEXPIREAT {} {}", k, ts),
+        Command::ExpireTime(k) => format!("EXPIRETIME {}", k),
+        Command::Set { key, value, ex, px, exat, pxat, nx, xx, get, keepttl } => format!("SET {} {}{}{}{}{}{}{}{}{}", key, t(value),
+            ex.map(|v| format!(" EX {}", v)).unwrap_or_default(), px.map(|v| format!(" PX {}", v)).unwrap_or_default(), exat.map(|v| format!(" EXAT {}", v)).unwrap_or_default(), pxat.map(|v| format!(" PXAT {}", v)).unwrap_or_default(),
+            if *nx { " NX" } else { "" }, if *xx { " XX" } else { "" }, if *get { " GET" } else { "" }, if *keepttl { " KEEPTTL" } else { "" }),
+        Command::GetSet(k, v) => format!("GETSET {} {}", k, t(v)),
+        Command::GetDel(k) => format!("GETDEL {}", k),
+        Command::GetEx { key, ex, px, exat, pxat, persist } => format!("GETEX {}{}{}{}{}{}", key, ex.map(|v| format!(" EX {}", v)).unwrap_or_default(), px.map(|v| format!(" PX {}", v)).unwrap_or_default(), exat.map(|v| format!(" EXAT {}", v)).unwrap_or_default(), pxat.map(|v| format!(" PXAT {}", v)).unwrap_or_default(), if *persist { " PERSIST" } else { "" }),
+        Command::MSet(p) => format!("MSET {}", p.iter().map(|(k, v)| format!("{} {}", k, t(v))).collect::<Vec<_>>().join(" ")),
+        Command::MSetNx(p) => format!("MSETNX {}", p.iter().map(|(k, v)| format!("{} {}", k, t(v))).collect::<Vec<_>>().join(" ")),
+        Command::BatchSet(p) => format!("BATCHSET {}", p.iter().map(|(k, v)| format!("{} {}", k, t(v))).collect::<Vec<_>>().join(" ")),
+        Command::StrLen(k) => format!("STRLEN {}", k),
+        Command::LPush(k, vs) => format!("LPUSH {} {}", k, vs.iter().map(|v| t(v)).collect::<Vec<_>>().join(" ")),
+        Command::RPopLPush(a, b) => format!("RPOPLPUSH {} {}", a, b),
+        Command::LMove { source, dest, wherefrom, whereto } => format!("LMOVE {} {} {} {}", source, dest, wherefrom, whereto),
+        Command::IncrByFloat(k, f) => format!("INCRBYFLOAT {} {:e}", k, f),
+        Command::SetRange(k, o, v) => format!("SETRANGE {} {} {}", k, o, t(v)),
+        Command::HIncrBy(k, f, n) => format!("HINCRBY {} {} {}", k, t(f), n),
+        Command::HSet(k, p) => format!("HSET {} {}", k, p.iter().map(|(f, v)| format!("{} {}", t(f), t(v))).collect::<Vec<_>>().join(" ")),
         other => format!("{:?}", other),
     }
 }
+fn flags(nx: bool, xx: bool, gt: bool, lt: bool) -> String { format!("{}{}{}{}", if nx { " NX" } else { "" }, if xx { " XX" } else { "" }, if gt { " GT" } else { "" }, if lt { " LT" } else { "" }) }
 
 #[derive(Clone, Copy, Debug, PartialEq)]
-enum Clock { Active, Lazy }
-fn advance(ex: &mut CommandExecutor, mode: Clock, t: u64) {
+pub(crate) enum Clock { Active, Lazy }
+pub(crate) fn advance(ex: &mut CommandExecutor, mode: Clock, t: u64) {
     match mode { Clock::Active => ex.set_time(VirtualTime::from_millis(t)), Clock::Lazy => ex.update_time_readonly(VirtualTime::from_millis(t)) }
 }
 
-fn set_opts(key: &str, val: &str, ex_: Option<i64>, px: Option<i64>, exat: Option<i64>, pxat: Option<i64>, keepttl: bool) -> Command {
+pub(crate) fn set_opts(key: &str, val: &str, ex_: Option<i64>, px: Option<i64>, exat: Option<i64>, pxat: Option<i64>, keepttl: bool) -> Command {
     Command::Set { key: key.to_string(), value: sds(val), ex: ex_, px, exat, pxat, nx: false, xx: false, get: false, keepttl }
 }
-fn pexpire(key: &str, ms: i64) -> Command { Command::PExpire { key: key.to_string(), milliseconds: ms, nx: false, xx: false, gt: false, lt: false } }
+pub(crate) fn pexpire(key: &str, ms: i64) -> Command { Command::PExpire { key: key.to_string(), milliseconds: ms, nx: false, xx: false, gt: false, lt: false } }
 
 /// the visible keyspace: every key with its type, full value and remaining TTL (ms)
-fn snapshot(ex: &mut CommandExecutor) -> Vec<String> {
+pub(crate) fn snapshot(ex: &mut CommandExecutor) -> Vec<String> {
     let mut keys: Vec<String> = match exec(ex, &Command::Keys("*".to_string())) {
         Ok(RespValue::Array(Some(a))) => a.iter().filter_map(|x| if let RespValue::BulkString(Some(b)) = x { Some(String::from_utf8_lossy(b).to_string()) } else { None }).collect(),
         other => return vec![format!("KEYS * -> {:?}", other.map(|r| show(&r)))],
@@ -134,7 +156,7 @@ fn variants(t0: u64, epoch_ms: i64, ms: u64) -> Vec<Variant> {
     v
 }
 
-fn fresh(t0: u64, epoch_ms: i64) -> CommandExecutor {
+pub(crate) fn fresh(t0: u64, epoch_ms: i64) -> CommandExecutor {
     let mut ex = CommandExecutor::new();
     ex.set_simulation_start_epoch_ms(epoch_ms);
     ex.set_simulation_start_epoch(epoch_ms / 1000);
